@@ -20,7 +20,10 @@ REQUIRED_THEOREMS = ['preprocess_length_of', 'recodePairs_single', 'preprocess_l
                      'modifier_push_pop_suffix', 'modifier_push_pop_index_counterexample', 'phoneRespan_span',
                      'mergedExtract_spans', 'parser_push_pop', 'parser_pop_without_reset_restores_twice', 'parser_push_pop_equal_around_counterexample', 'parser_push_pop_index_counterexample',
                      # RTV.Props.C01DtExtract: the date-time sub-extractors' token arithmetic
-                     'subextractor_results_ok', 'dateBasic_inside', 'numberWithMonth_inside', 'extendWdYear_inside', 'extendWdYear_overrun_witness', 'agoLater_inside', 'relDurLoop_inside', 'inPrefix_reversed_witness', 'numberWithUnit_inside', 'numberWithUnitAndSuffix_inside', 'mergeMultipleDuration_inside', 'tagInequality_inside', 'mdtPairTok_inside', 'mdtLoop_mem', 'mdtWiden_inside', 'todBeforeOne_inside', 'todAfterOne_inside', 'specialOne_inside', 'rangePairTok_inside', 'rangeLoop_mem', 'range_from_leading_blank', 'rangePairTok_time_after_between_witness', 'matchDurationOne_inside_partial', 'matchDuration_suffix_overrun']
+                     'subextractor_results_ok', 'dateBasic_inside', 'numberWithMonth_inside', 'extendWdYear_inside', 'extendWdYear_overrun_witness', 'agoLater_inside', 'relDurLoop_inside', 'inPrefix_reversed_witness', 'numberWithUnit_inside', 'numberWithUnitAndSuffix_inside', 'mergeMultipleDuration_inside', 'tagInequality_inside', 'mdtPairTok_inside', 'mdtLoop_mem', 'mdtWiden_inside', 'todBeforeOne_inside', 'todAfterOne_inside', 'specialOne_inside', 'rangePairTok_inside', 'rangeLoop_mem', 'range_from_leading_blank', 'rangePairTok_time_after_between_witness', 'matchDurationOne_inside_partial', 'matchDuration_suffix_overrun',
+                     # repaired variants at full strength + the pre-fix regressions (findings/dtextract/*.diff)
+                     'dateBasic_fixed_covers_match', 'dateBasic_first_occurrence', 'mdtLoop_total_fixed', 'mergeDateAndTime_raises',
+                     'rangePairTok_fixed_starts_at_word', 'rangePairTok_fixed_clear_of_previous']
 RULE = ('preprocess: every code point (blocks of 200 separated by blanks, both case modes) + seeded strings over a pool '
         'with full-width forms, U+0130, sigma, unit tokens; pipeline and unit level as C12 with oracle spanOK; '
         'non-trivial = distinct query with at least one entity / distinct recorded call with at least one result')
